@@ -171,6 +171,14 @@ def text_family(rng, ctx, tmp, quick, k):
         return pe.input.sfcf.read_sfcf(d, 'tst', spec.name, quarks=spec.quarks, corr_type=spec.corr_type, noffset=spec.offset, wf=spec.wf, wf2=0, version=version, silent=True)
     reps = [{'stem': 'tst_r%d' % r, 'recs': [{'cfg': cfg, 'p': [[rat(re), rat(im)] for re, im in corrs[tuple(spec)]]} for cfg, corrs in replicas['tst_r%d' % r]]} for r in idxs]
     cases = []
+
+    def read_multi():
+        # several correlators in one request, asked for in another order than the file prints them; the result for `spec` is what is judged
+        out = pe.input.sfcf.read_sfcf_multi(d, 'tst', [s_.name for s_ in specs[::-1]], quarks_list=[spec.quarks], corr_type_list=[s_.corr_type for s_ in specs[::-1]],
+                                            noffset_list=[spec.offset], wf_list=[spec.wf], wf2_list=[0], version=version, silent=True, keyed_out=True)
+        key = [k for k in out if k.startswith(spec.name + '/')][0]
+        return out[key]
+    readers = [('', read)] + ([('-multi', read_multi)] if len(specs) > 1 else [])
     # the files that are cut: appended -> the f_A file of the first and of the last replica; otherwise (one file per configuration) the file of
     # the FIRST configuration of the first replica (the one the reader takes the layout from), a middle one and the LAST of the last replica
     mine = [x for x in desc if x.get('name') in (None, 'f_A')]
@@ -191,14 +199,17 @@ def text_family(rng, ctx, tmp, quick, k):
         if quick and len(targets) > 2 and pos not in (0, len(cl[r_idx]) - 1):
             offs = offs[::3]
         for cut in offs:
-            orig = cut_file(target['path'], cut)
-            r = c17.quiet(read)
-            with open(target['path'], 'wb') as f:
-                f.write(orig)
-            res = c17.res_series(r if isinstance(r, Exception) else list(r))
-            cid = 'cut-sfcf%s-%s-%05d' % (version, '_'.join(target['path'].split(os.sep)[-2:]) if not appended else os.path.basename(target['path']), cut)
-            cases.append({'id': cid, 'ev': 'trunc', 'fmt': 'sfcf', 'reps': reps, 'par': {'im': False}, 'sel': {'k': 'all'}, 'r': r_idx, 'bounds': bounds, 'cut': cut,
-                          'cutinfo': '%d of %d bytes' % (cut, size), 'known': 'sfcf: ' + KNOWN_TAIL, 'res': res})
+            for rtag, rd in readers:
+                if rtag and quick and cut % 2:
+                    continue
+                orig = cut_file(target['path'], cut)
+                r = c17.quiet(rd)
+                with open(target['path'], 'wb') as f:
+                    f.write(orig)
+                res = c17.res_series(r if isinstance(r, Exception) else list(r))
+                cid = 'cut-sfcf%s%s-%s-%05d' % (version, rtag, '_'.join(target['path'].split(os.sep)[-2:]) if not appended else os.path.basename(target['path']), cut)
+                cases.append({'id': cid, 'ev': 'trunc', 'fmt': 'sfcf', 'reps': reps, 'par': {'im': False}, 'sel': {'k': 'all'}, 'r': r_idx, 'bounds': bounds, 'cut': cut,
+                              'cutinfo': '%d of %d bytes' % (cut, size), 'known': 'sfcf: ' + KNOWN_TAIL, 'res': res})
             ctx.nontrivial.add(('sfcf', version, r_idx, pos, cut))
     return cases
 
@@ -246,9 +257,19 @@ def export_cases(rng, ctx, tmp, quick):
     df = pd.DataFrame({'i': [0, 1, 2], 'o': o})
     pe.input.pandas.dump_df(df, p4, gz=True)
     files.append(('csv.gz', p4 + '.csv.gz', lambda: pe.input.pandas.load_df(p4, gz=True)))
+    # a long table (an implementation that writes it piecewise leaves well-formed prefixes behind)
+    p5 = os.path.join(tmp, 'ex_df_long')
+    small = [pe.pseudo_Obs(1.0 + 0.01 * k, 0.05, 'L|r1', samples=8) for k in range(70)]
+    pe.input.pandas.dump_df(pd.DataFrame({'i': list(range(70)), 'o': small}), p5, gz=True)
+    files.append(('csv.gz(70 rows)', p5 + '.csv.gz', lambda: pe.input.pandas.load_df(p5, gz=True)))
     for fmt, path, reader in files:
         size = os.path.getsize(path)
         offs = list(range(size)) if not quick else sorted(set(range(0, size, 37)) | set(range(size - 30, size)))
+        if fmt.startswith('csv.gz(70'):
+            offs = sorted(set(range(0, size, 997 if quick else 101)) | set(range(size - 12, size)))
+            with open(path, 'rb') as f:
+                blob = f.read()
+            offs = sorted(set(offs) | {k for k in range(1, size) if blob[k:k + 3] == b'\x1f\x8b\x08'})
         if quick:
             # structure-aware offsets: wherever a gzip member could begin (a cut there leaves a well-formed archive of the members before it)
             with open(path, 'rb') as f:
